@@ -159,6 +159,14 @@ Definition travel_from_spec (sto : list (Z * nat)) (a b : place) : res (Z * list
 Definition h_t_to_transit (x : state) (tr : transition) (t : nat) (ts : transport) : res state :=
   j <- of_opt EMissingJobId (tr_job tr) ;;
   jb <- get_job x j ;;
+  (* an ordered buffer only releases the job its discipline allows: otherwise keep waiting *)
+  sb <- of_opt EInvalidValue (get_buf x (j_loc jb)) ;;
+  sc <- of_opt EInvalidValue (get_bcfg i (j_loc jb)) ;;
+  blocked <- match index_of j (b_store sb) with
+             | Some p => cp <- is_correct_position (Some p) (length (b_store sb)) (bc_type sc) ;; Ok (negb cp)
+             | None => Ok false
+             end ;;
+  if blocked : bool then h_t_waiting_waiting x tr t ts else
   let src := place_of_bid (j_loc jb) in
   dst <- dest_not_done jb ;;
   '(trv, sto') <- travel_from_spec (s_sto x) src dst ;;
